@@ -8,15 +8,20 @@ package service
 // EndBlocker$3 = newRequestBatchHandler(requestContextID, requestContext): called for every entry of the new-batch queue at this height,
 // with the stored context (or the zero value if it is missing).
 //@ func EndBlocker$3
-//@ props C06 C09 C01 C11 C10 C12 C20
+//@ props C06 C09 C01 C11 C10 C12 C20 C03
 //@ modifies raw, bal, cblog
-//@ requires wf: WF(raw)
+//@ preserves wf: WF(raw)
+//@ preserves [C03] deposits_in_custody: depInv(raw, bal)
+//@ requires a3_consumer_ordinary: ordinary(requestContext.Consumer)
 //@ requires called_with_the_stored_context: ctxFound(raw, requestContextID) && requestContext == ctxOf(raw, requestContextID) && rng_RequestContext(requestContext)
 //@ requires providers_bounded: len(requestContext.Providers) <= 32767
 //@ ensures [C11] queue_entry_consumed: allBase(old(raw), requestContext.ServiceName, requestContext.Providers) || requestContext.State != RUNNING ==>
 //@      raw[KNewQ(ctxHeight(ctx), requestContextID)] == bnil && raw[KNewH(requestContextID)] == bnil
 //@ ensures [C11] queue_entry_consumed_when_a_price_is_not_in_base_denom: !allBase(old(raw), requestContext.ServiceName, requestContext.Providers) && requestContext.State == RUNNING ==>
 //@      raw[KNewQ(ctxHeight(ctx), requestContextID)] == bnil && raw[KNewH(requestContextID)] == bnil
+//@ ensures [C11,C16,C03] touches_no_other_context_queue_entry_or_binding: forall k Key :: {raw[k]}
+//@      ((is_KCtx(k) && k != KCtx(requestContextID)) || (is_KNewQ(k) && k != KNewQ(ctxHeight(ctx), requestContextID)) || (is_KNewH(k) && k != KNewH(requestContextID)) ||
+//@       (is_KExpQ(k) && keq_id(k) != requestContextID) || (is_KExpH(k) && k != KExpH(requestContextID)) || is_KBind(k) || is_KPricing(k) || is_KVol(k)) ==> raw[k] == old(raw)[k]
 //@ ensures [C09] not_running_means_no_batch: requestContext.State != RUNNING ==> bal == old(bal) && cblog == old(cblog) &&
 //@      raw == old(raw)[KNewQ(ctxHeight(ctx), requestContextID) := bnil][KNewH(requestContextID) := bnil]
 //@ ensures [C06] skipped_without_charge_when_too_few_eligible: (let rc := requestContext in
@@ -87,6 +92,9 @@ package service
 //@ ensures [C16] batch_request_records_removed: forall rid Bytes :: {raw[KReq(rid)]} ridCtx(rid) == requestContextID && ridBatch(rid) == requestContext.BatchCounter ==> raw[KReq(rid)] == bnil
 //@ ensures [C16,C08] no_request_of_the_batch_stays_pending: requestContext.BatchState != BATCHCOMPLETED ==>
 //@      (forall rid Bytes :: {raw[KActID(rid)]} ridCtx(rid) == requestContextID && ridBatch(rid) == requestContext.BatchCounter ==> raw[KActID(rid)] == bnil)
+//@ ensures [C11,C16] touches_no_other_context_or_queue_entry: forall k Key :: {raw[k]}
+//@      ((is_KCtx(k) && k != KCtx(requestContextID)) || (is_KExpQ(k) && k != KExpQ(ctxHeight(ctx), requestContextID)) || (is_KExpH(k) && k != KExpH(requestContextID)) ||
+//@       (is_KNewQ(k) && knq_id(k) != requestContextID) || (is_KNewH(k) && k != KNewH(requestContextID))) ==> raw[k] == old(raw)[k]
 //@ ensures [C12] callback_once_if_the_batch_was_still_open: (let rc := requestContext in requestContext.BatchState == BATCHCOMPLETED || len(rc.ModuleName) == 0 ==> cblog == old(cblog))
 
 // ---------------------------------------------------------------- message handlers (C05: authority; a message debits only its signer)
@@ -226,3 +234,29 @@ package service
 //@ ensures [C19] every_pending_fee_and_every_earning_returned: bal == refundEarnedIt(refundIt(old(bal), old(raw), PAllAct, itCount(old(raw), PAllAct)), old(raw), PAllEarned, itCount(old(raw), PAllEarned))
 //@ ensures [C19] every_context_paused_with_no_batch_in_flight: forall k Key :: {raw[k]} raw[k] == ((is_KCtx(k) && old(raw)[k] != bnil)
 //@      ? enc_RequestContext(dec_RequestContext(old(raw)[k])[State := PAUSED][BatchState := BATCHCOMPLETED][BatchRequestCount := 0][BatchResponseCount := 0]) : old(raw)[k])
+
+// ---------------------------------------------------------------- EndBlocker: the two queue scans of one block
+//@ func EndBlocker
+//@ props C11 C03 C16 C20 C10
+//@ modifies raw, bal, supply, cblog
+//@ preserves wf: WF(raw)
+//@ preserves [C03] deposits_in_custody: depInv(raw, bal)
+//@ requires [C16] pending_requests_are_well_formed: actInv(raw)
+//@ requires [C11] queues_are_well_formed: schedInv(raw)
+//@ loop IterateExpiredRequestBatch.0 invariant pos_in_range: 0 <= iterator_pos && iterator_pos <= itCount(iterator_snap, iterator_pfx)
+//@ loop IterateExpiredRequestBatch.0 invariant snapshot: iterator_snap == old(raw) && iterator_pfx == PExpQ(ctxHeight(ctx)) && expirationHeight == ctxHeight(ctx)
+//@ loop IterateExpiredRequestBatch.0 invariant wf: WF(raw) && depInv(raw, bal) && actInv(raw)
+//@ loop IterateExpiredRequestBatch.0 invariant expiry_entries: forall k Key :: {raw[k]} is_KExpQ(k) ==> raw[k] ==
+//@      ((inPfx(k, iterator_pfx) && iterator_snap[k] != bnil && itIdx(iterator_snap, iterator_pfx, k) < iterator_pos) ? bnil : iterator_snap[k])
+//@ loop 0 invariant events_only: true
+//@ loop IterateNewRequestBatch.0 invariant pos_in_range: 0 <= iterator_pos && iterator_pos <= itCount(iterator_snap, iterator_pfx)
+//@ loop IterateNewRequestBatch.0 invariant snapshot: iterator_snap == call_raw && iterator_pfx == PNewQ(ctxHeight(ctx)) && requestBatchHeight == ctxHeight(ctx)
+//@ loop IterateNewRequestBatch.0 invariant wf: WF(raw) && depInv(raw, bal)
+//@ loop IterateNewRequestBatch.0 invariant new_entries_of_snapshot_ok: forall id Bytes :: {iterator_snap[KNewQ(ctxHeight(ctx), id)]} newOK(iterator_snap, ctxHeight(ctx), id)
+//@ loop IterateNewRequestBatch.0 invariant unvisited_contexts_untouched: forall id Bytes :: {raw[KCtx(id)]}
+//@      (iterator_snap[KNewQ(ctxHeight(ctx), id)] != bnil && itIdx(iterator_snap, iterator_pfx, KNewQ(ctxHeight(ctx), id)) >= iterator_pos) ==>
+//@      raw[KCtx(id)] == iterator_snap[KCtx(id)]
+//@ loop IterateExpiredRequestBatch.0 invariant new_entries_ok: forall h Int, id Bytes :: {raw[KNewQ(h, id)]} newOK(raw, h, id)
+//@ loop IterateExpiredRequestBatch.0 invariant unvisited_contexts_untouched: forall id Bytes :: {raw[KCtx(id)]}
+//@      (iterator_snap[KExpQ(ctxHeight(ctx), id)] != bnil && itIdx(iterator_snap, iterator_pfx, KExpQ(ctxHeight(ctx), id)) >= iterator_pos) ==>
+//@      raw[KCtx(id)] == iterator_snap[KCtx(id)]
